@@ -106,6 +106,8 @@ def bank_chains(seed, count, prefix="c03"):
         L = scen.LEG
         s = scen.Scn("%s-bank-%d" % (prefix, k), sched=L, seed=seed * 100 + 50 + k, assets=["PEG", "pUSD", "pFCT", "pXBT"])
         us = [s.key("B%d" % i) for i in range(1, 5)]
+        whale = s.key("W1")
+        s.burn(1, whale, 600000 * 10**8)
         for h in range(1, 21):
             s.grade(h, n=10 if h < L["GradingV2"] else 25, spr=False)
             if h <= 2:
@@ -126,8 +128,8 @@ def bank_chains(seed, count, prefix="c03"):
         # each PEG draw affordable alone, together not, the last one relying on the deferred credit of the middle one
         s.entry(h + 1, us[2], [{"t": "PEG", "amt": peg, "conv": "pUSD"}, {"t": "pUSD", "amt": 50 * 10**8, "conv": "PEG"}, {"t": "PEG", "amt": peg, "conv": "pUSD"}])
         # a huge request and a tiny one in the same block: the tiny one's share of the bank rounds to 0 (it keeps its whole input)
-        s.convert(h + 2, us[3], "pFCT", 250 * 10**8, "PEG", track=False)
-        s.convert(h + 2, us[1], "pUSD", 2, "PEG", track=False)
+        s.convert(h - 1, whale, "pFCT", 500000 * 10**8, "PEG", track=False)          # asks for 15,000,000 PEG
+        s.convert(h - 1, us[3], "pUSD", 2, "PEG", track=False)                        # asks for 40 units: 40 * bank / total < 1
         s.tip(21)
         docs.append((s.s["name"], s.doc()))
     return docs
